@@ -5,6 +5,8 @@ import FFVerif.Props.C09EtmCP
 import FFVerif.Props.C09EtmCPLiou
 import FFVerif.Props.C09EtmChoi
 import FFVerif.Props.C10Shifts
+import FFVerif.Props.C09EtmFn
+import FFVerif.Props.C09EtmFnShapes
 import FFVerif.Pins.pinBasisArrayFinalize
 import FFVerif.Pins.pinFourElementTraces
 import FFVerif.Pins.pinErrorTransferMatrix
@@ -80,6 +82,23 @@ import FFVerif.Pins.C09_cumulant_source_shape
 #print axioms FFVerif.C10.cumulant_second_order_from_antisymmetric_part
 #print axioms FFVerif.C10.frequency_shifts_hermitian_part
 #print axioms FFVerif.C10.frequency_shifts_symmetric_part
+#print axioms FFVerif.C09.shortcutTaken_iff
+#print axioms FFVerif.C09.cumulant_branch_selection
+#print axioms FFVerif.C09.etmFn_arg_is_sum_of_cumulants
+#print axioms FFVerif.C09.etmFn_modes_agree
+#print axioms FFVerif.C09.cumulantFromPulse_ok
+#print axioms FFVerif.C09.etmFn_rejects_iff
+#print axioms FFVerif.C09.error_transfer_matrix_physical
+#print axioms FFVerif.C09.etmFn_arg_is_sum_of_cumulants_single
+#print axioms FFVerif.C09.etmFn_arg_is_sum_of_cumulants_cross
+#print axioms FFVerif.C09.etm_physical_of_sum
+#print axioms FFVerif.C09.error_transfer_matrix_physical_single
+#print axioms FFVerif.C09.error_transfer_matrix_physical_cross
+#print axioms FFVerif.C09.cumulantFunction_rejects_iff
+#print axioms FFVerif.C09.decay_amplitudes_posSemidef
+#print axioms FFVerif.C09.summed_decay_amplitudes_posSemidef
+#print axioms FFVerif.C09.error_transfer_matrix_physical_of_nonneg_spectrum
+#print axioms FFVerif.C09.error_transfer_matrix_physical_of_nonneg_spectrum_single
 #print axioms FFVerif.Pins.pinBasisArrayFinalize
 #print axioms FFVerif.Pins.pinFourElementTraces
 #print axioms FFVerif.Pins.pinErrorTransferMatrix
